@@ -44,7 +44,8 @@ class Result:
 
 def run_worker(kind, *, build, messages, worker_kw=None, stop_at=None, stop_mode="signal",
                buckets=None, bucket_kind=None, deviations=None, settle=2.0, pre=None, during=None,
-               max_iters=400_000, clients=1, queues=("q",), inject=None, configure=None, fail_calls=None):
+               max_iters=400_000, clients=1, queues=("q",), inject=None, configure=None, fail_calls=None,
+               server_choices=False):
     """build(x, worker) registers actors; messages: list of dicts(id, topic, queue, payload, params,
     prio).  The worker is stopped by SIGTERM at virtual time `stop_at` (relative to its start)
     unless it stops by itself (messages_limit)."""
@@ -78,6 +79,12 @@ def run_worker(kind, *, build, messages, worker_kw=None, stop_at=None, stop_mode
         st, v = x.run(setup())
         if st != "ok":
             raise AssertionError(f"setup failed: {st} {v!r}")
+        if server_choices and w.server is not None:
+            # timing of the server becomes a choice: a request may be overtaken (Redis), a reply /
+            # confirm / write-drain may arrive after everything else at that instant (RabbitMQ)
+            for flag in ("stall_choice", "late_choice"):
+                if hasattr(w.server, flag):
+                    setattr(w.server, flag, True)
         x.mark()
 
         def stop():
